@@ -208,6 +208,11 @@ pub struct IoHandle {
 impl IoHandle {
     /// Send an I/O command. This fails if the channel has hung up, but does not block the thread.
     pub fn send(&self, command: IoCommand) -> Result<(), SendError<IoCommand>> {
+        #[cfg(feature = "verif")]
+        let command = match crate::verif::io::on_send(command, &self.completion_sender) {
+            Some(command) => command,
+            None => return Ok(()),
+        };
         let sender = match self.sender.upgrade() {
             Some(sender) => sender,
             None => return Err(SendError(command)),
